@@ -865,7 +865,9 @@ def sweep_compare(ctx, pats, points, prop, why):
         cr, sr = code.get(cid), spec.get(cid)
         if model and model.get(cid) != cr:
             dis.append({"case": c.to_json(), "tag": tag, "differs": {"members": {"code": (cr or "")[:300], "model": (model.get(cid) or "")[:300]}}})
-        if sr in ("unspec", "not-a-class", None):
+        if sr in ("unspec", "not-a-class", None, "slow", "ABORT"):
+            # no verdict from the specification side (a loaded machine can make its evaluation of a
+            # big case-insensitive class miss the watchdog): no claim on this pattern
             continue
         nontrivial.add((d, fl, p))
         if sr == "invalid":
@@ -1084,6 +1086,13 @@ def slice_C12(ctx):
     pats = ["^", "$", "^a", "a$", "^a$", "^$", "a^b", "a$b", "a\n^b", "a$\nb", "(?:^a|b$)", "(?:^|a)b", "a(?:$|b)", "(^a)+", "(?:a$)+",
             "^*a", "$?b", "^+a", "${2}", "(?:^|$)a", "^^a", "a$$", ".", "a.b", ".*", "^.*$", "^.$", "[^a]", "(?:.|\n)a", "a.$", "^.a",
             "\n^", "$\n", "^\n", "\n$", "(?:^a$\n?)+", "^a\n", "^.*\n", "^[ab]*\n", "^b?\n", "^.\n?", "^(?:a|b)\n", "^a*$\n", "a*^b", "\n*$\nb", "(?:a|^)+b", "b(?:$|a)*", "^(?:a|b)*$", "(?:^a|^b)\n"]
+    # every quantifier on every spelling of an anchor, in every position of a small context
+    quants = ["?", "*", "+", "{0}", "{1}", "{2}", "{0,1}", "{0,2}", "{0,}", "{1,}", "{1,2}", "{2,3}", "{0,0}"]
+    for a_ in ("^", "$", "(?:^)", "(?:$)", "(^)", "($)", "(?:^|$)"):
+        for q in quants:
+            for lazy in ("", "?"):
+                aq = a_ + q + lazy
+                pats.extend(["a" + aq + "b", aq + "a", "b" + aq, "(?:a|b" + aq + ")a", "a\n" + aq + "b", "a" + aq + "\nb"])
     for _ in range(ctx.n(60, 400)):
         g = gen.Gen(rng, alphabet="ab\n", feats={"anchor", "dot", "alt", "quant", "nc", "grp", "reluctant"})
         _, p = g.pattern(rng.randint(2, 6))
@@ -1092,7 +1101,7 @@ def slice_C12(ctx):
     tuples = []
     for p in pats:
         for fl in ("", "m", "s", "ms"):
-            for inp in (inputs if len(p) < 8 or not ctx.quick else rng.sample(inputs, 120)):
+            for inp in (inputs if len(p) < 8 or not ctx.quick else rng.sample(inputs, 60 if "{" in p or len(p) > 12 else 120)):
                 tuples.append(("xpath", fl, p, inp, ""))
     cases = mk_cases(tuples, "ma")
     code, model, dis = run_slice(cases)
